@@ -55,12 +55,17 @@ def classify(toks, n, per):
         p, i = int(f[1]), int(f[2])
         if kind == 'E':
             if inside is not None:
-                bad.append(('overlap', 'producer %d entered the pipeline with message %d while producer %d was inside with message %d' % (p, i, inside[0], inside[1]), pos))
+                if inside[0] == 'flush':
+                    bad.append(('overlap', 'producer %d entered the pipeline with message %d while producer %d was inside Sink::flush() (fatal message %d)' % (p, i, inside[1], inside[2]), pos))
+                else:
+                    bad.append(('overlap', 'producer %d entered the pipeline with message %d while producer %d was inside with message %d' % (p, i, inside[0], inside[1]), pos))
             inside = (p, i)
         elif kind == 'X':
             sq = int(f[3])
             if inside != (p, i):
                 bad.append(('overlap', 'sink received message %d of producer %d while %s was the last to enter' % (i, p, inside), pos))
+                if inside is not None and inside[0] == 'flush':
+                    continue        # keep the flush interval open: its own exit reports
             inside = None
             if (p, i) in delivered:
                 bad.append(('duplicate', 'message %d of producer %d delivered twice' % (i, p), pos))
@@ -77,6 +82,14 @@ def classify(toks, n, per):
             order.append((p, i))
         elif kind == 'M':
             locked_m.append((p, i))
+        elif kind == 'F':        # Sink::flush entered (fatal path): a sink entry point like send()
+            if inside is not None:
+                bad.append(('overlap', 'producer %d entered Sink::flush() (fatal message %d) while %s was inside the pipeline' % (p, i, inside), pos))
+            inside = ('flush', p, i)
+        elif kind == 'G':
+            if inside != ('flush', p, i):
+                bad.append(('overlap', 'Sink::flush() of producer %d (fatal message %d) ran concurrently with %s' % (p, i, inside), pos))
+            inside = None
     for p in range(n):
         for i in range(per):
             if (p, i) not in delivered:
@@ -116,6 +129,17 @@ def gen_configs(chk, reps, total, heavy=False):
     return cfgs
 
 
+def entry_configs(chk, reps, total):
+    """mixed entry points (Qt macros + direct process() on the same installed Logger) and fatal-level messages (flush)"""
+    cfgs = []
+    for _ in range(reps):
+        for mode, ns in (('mixed', (2, 4, 8, 16)), ('fatal', (2, 4, 8))):
+            for n in ns:
+                cfgs.append({'mode': mode, 'n': n, 'per': max(3, total // n), 'seed': chk.rng.randrange(1, 2 ** 31),
+                             'perturb': chk.rng.choice([1, 2, 3]), 'dup': 0, 'stall': 0})
+    return cfgs
+
+
 def stall_configs(chk, reps, ms):
     """a handler of long duration: one message keeps the pipeline busy for `ms` while the other producers keep logging"""
     return [{'mode': mode, 'n': 4, 'per': 60, 'seed': chk.rng.randrange(1, 2 ** 31), 'perturb': 1, 'dup': 0, 'stall': ms}
@@ -148,10 +172,10 @@ def run():
     impl = vlib.build_harness('conc')
     thorough = chk.tier == 'thorough'
     total = 2000
-    cfgs = stall_configs(chk, 1, 1300) + gen_configs(chk, 17 if thorough else 6, total)
+    cfgs = stall_configs(chk, 1, 1300) + entry_configs(chk, 6 if thorough else 2, total) + gen_configs(chk, 17 if thorough else 4, total)
     if not proof_ok:
         # the skeleton no longer satisfies the obligation (or a proof broke): widen the schedule search
-        cfgs += gen_configs(chk, 6, total, heavy=True) + stall_configs(chk, 1, 2600)
+        cfgs += gen_configs(chk, 5, total, heavy=True) + entry_configs(chk, 4, total) + stall_configs(chk, 1, 2600)
     results = []
     with concurrent.futures.ThreadPoolExecutor(max_workers=4) as ex:
         futs = [(c, ex.submit(run_one, impl, c)) for c in cfgs]
@@ -224,12 +248,15 @@ def run():
                             'announces the lock hand-over at the schedule points; supporting evidence only, never a verdict'}
     chk.cov.update({'evaluations': len(results), 'distinct_nontrivial': sum(1 for r in results if r[2] is not None and len(r[3]) >= 2 * r[0]['n']),
                     'rule': '%d runs = repetitions x {installed Logger via qInfo/qWarning, bare OwnThreadHandler<SimplePipeline>} x '
+                            '(plus: installed Logger with mixed entry points = macros + direct process(); installed Logger with '
+                            'fatal-level messages through Logger::messageHandler and a sink whose flush() takes tickets) '
                             'N in {2,4,8,16,32,64} producer threads, ~%d messages per run, seeded yields/sleeps/spins at the schedule points, '
                             'plus runs in which one handler call lasts 1.3 s while the other producers keep logging; '
                             'non-trivial = at least two deliveries per producer' % (len(results), total),
                     'events_recorded': n_events, 'deliveries': n_deliv, 'producer_switches_between_consecutive_deliveries': switches,
                     'threads_histogram': {str(n): sum(1 for r in results if r[0]['n'] == n) for n in NS},
-                    'mode_histogram': {m: sum(1 for r in results if r[0]['mode'] == m) for m in ('logger', 'bare')},
+                    'mode_histogram': {m: sum(1 for r in results if r[0]['mode'] == m) for m in ('logger', 'bare', 'mixed', 'fatal')},
+                    'flush_intervals_recorded': sum(sum(1 for t in r[3] if t[0] == 'F') for r in results),
                     'perturb_histogram': {str(p): sum(1 for r in results if r[0]['perturb'] == p) for p in range(4)},
                     'dupfilter_runs': sum(1 for r in results if r[0]['dup']), 'long_handler_runs': sum(1 for r in results if r[0].get('stall')),
                     'violation_kinds': kinds, 'acceptor_vs_oracle_disagreements': disagreements, 'tsan': tsan})
